@@ -7,7 +7,7 @@ EXTENDS Scene
 Rebind == {"P_models", "B_models", "L_models", "P_adata", "B_adata", "B_att", "L_profile", "L_spectrum", "B_plasma", "L_plasma",
            "P_comp", "P_geom", "P_edist", "P_bfield", "M_cxline", "P_integ", "B_integ", "L_integ"}
 SOSNext == \/ /\ Len(hist) = 1
-              /\ \E p \in Rebind \cap MutParams : \E v \in Values(p) : \E via \in Vias(p) : Set(p, v, via)
+              /\ \E p \in Rebind \cap MutParams : \E v \in Values(p) : \E via \in Vias(p) : ViaOK(p, v, via) /\ Set(p, v, via)
            \/ /\ Len(hist) = 2 /\ Observe("all")
            \/ /\ Len(hist) = 3
               /\ \E p \in MutParams : \E v \in Values(p) : Set(p, v, "assign")
